@@ -21,3 +21,19 @@ uint32 CalculateHashCode(const void *, size_t, uint32) {printf("REPLAY: native s
 void Crash(const char * file, int line) {printf("REPLAY: muscle::Crash() called from %s:%i\n", file, line); fflush(stdout); abort();}
 #endif
 }
+
+#ifdef VERIF_ALLOC_BUDGET
+// native replay of an allocation-budget counterexample: every operator new is checked against the same per-request budget the CBMC allocator model asserts
+#include <new>
+extern "C" unsigned wl_alloc_one(void);
+extern "C" void __CPROVER_assert(bool, const char *);
+static void * verif_checked_alloc(size_t n) {if (wl_alloc_one()) __CPROVER_assert(n <= wl_alloc_one(), "allocation request within the O(N) per-request budget"); return malloc(n ? n : 1);}
+void * operator new(size_t n) {return verif_checked_alloc(n);}
+void * operator new[](size_t n) {return verif_checked_alloc(n);}
+void * operator new(size_t n, const std::nothrow_t &) noexcept {return verif_checked_alloc(n);}
+void * operator new[](size_t n, const std::nothrow_t &) noexcept {return verif_checked_alloc(n);}
+void operator delete(void * p) noexcept {free(p);}
+void operator delete[](void * p) noexcept {free(p);}
+void operator delete(void * p, size_t) noexcept {free(p);}
+void operator delete[](void * p, size_t) noexcept {free(p);}
+#endif
